@@ -4,6 +4,7 @@ C08, part 2 — forwarding: TTL, ARP look-ups, host next hop, addressee (model: 
 import PrimaiteModel.Model.Forward
 import PrimaiteModel.Model.Filter
 import PrimaiteModel.Gen.Forward
+import PrimaiteModel.Gen.Filter
 namespace Primaite.Forward
 open Primaite.Route (findBestRoute)
 
@@ -34,6 +35,25 @@ theorem C08_gen_ttl :
 theorem C08_gen_accept :
     Gen.Forward.nicUnicastNeedsNodeIp = true ∧
     Gen.Forward.routerReceiveOrder = ["on", "acl", "deny-return", "learn", "software-if-own-else-process"] := by decide
+
+/-- The wireless access point's `receive_frame` has the shape and the acceptance test of a router interface (so the model
+treats it as one), and the host's outbound-interface resolution carries the repair of F-57 (`resolveOut`, host branch:
+`if dst == g then none`). -/
+theorem C08_gen_wireless_and_gateway :
+    Gen.Forward.wapDropBelow = 1 ∧ Gen.Forward.wapAcceptsLikeRouterInterface = true ∧
+    Gen.Forward.airTransmitToOtherEnabled = true ∧ Gen.Forward.gatewayNotViaGateway = true := by decide
+
+/-- The firewall's arrival-port dispatch, the calls of each entry point in source order, "verdict first" and the missing
+operating-state test, as regenerated from firewall.py by C06's extractor, are what `routerRecv` implements for `fw = some _`
+(ports 1 / 2 / 3 of the source are interfaces 0 / 1 / 2 of the model: `ingressList`). -/
+theorem C08_gen_firewall :
+    Gen.Filter.portDispatch = [(1, "extIn"), (2, "intOut"), (3, "dmzOut")] ∧
+    Gen.Filter.entryCalls = [("extIn", ["learn", "session", "entry:dmzIn", "entry:intIn"]), ("extOut", ["process"]),
+      ("intIn", ["process"]), ("intOut", ["learn", "session", "entry:dmzIn", "entry:extOut"]), ("dmzIn", ["process"]),
+      ("dmzOut", ["learn", "session", "lookup", "lookup", "entry:extOut", "entry:intIn"])] ∧
+    Gen.Filter.verdictFirst = true ∧
+    Gen.Filter.powerGuard = [("router", true), ("firewall", false), ("switch", false), ("host", false)] ∧
+    ingressList 0 = some 0 ∧ ingressList 1 = some 3 ∧ ingressList 2 = some 5 ∧ ingressList 3 = none := by decide
 
 /-! ### TTL: every receive and every routing hop lowers it by one; exhausted frames are not processed -/
 
